@@ -557,12 +557,20 @@ class IncrementalPathSolver(object):
         if self.prefix_ids[:len(ob.pc)] != [c.get_id() for c in ob.pc[:len(self.prefix_ids)]][:len(ob.pc)] or \
                 len(ob.pc) < len(self.prefix_ids):
             return solve_obligation(ob, ob.symbols, self.timeout_ms)   # closed ("using") obligation: own small query
-        for pcond in ob.pc[self.npc:]:
-            self.s.add(pcond)
-            self.prefix_ids.append(pcond.get_id())
-        self.npc = len(ob.pc)
-        self.s.push()
-        self.s.add(z3.Not(ob.goal))
+        try:
+            for pcond in ob.pc[self.npc:]:
+                self.s.add(pcond)
+                self.prefix_ids.append(pcond.get_id())
+            self.npc = len(ob.pc)
+            self.s.push()
+            self.s.add(z3.Not(ob.goal))
+        except z3.Z3Exception:
+            # the incremental solver is in an unusable state (e.g. a cancelled operation): start a new one and decide
+            # this obligation with its own query
+            self.s = z3.Solver()
+            self.npc = 0
+            self.prefix_ids = []
+            return solve_obligation(ob, ob.symbols, self.timeout_ms)
         t1 = time.time()
         r0 = _rl(self.s) if os.environ.get("VERIF_RLSTATS") else 0
         r = limits.check(self.s, 400)
